@@ -273,6 +273,11 @@ impl Obs {
         self.0.push((label, v.to_le_bytes().to_vec()));
         self
     }
+    /// model side: "this observable is not decided by the property" (the real value is still logged)
+    pub fn any(&mut self, label: &'static str) -> &mut Self {
+        self.0.push((label, WILDCARD.to_vec()));
+        self
+    }
     pub fn hash(&self) -> u64 {
         let mut flat = Vec::new();
         for (l, v) in &self.0 {
@@ -291,6 +296,11 @@ impl Obs {
         for i in 0..self.0.len().max(model.0.len()) {
             let r = self.0.get(i);
             let m = model.0.get(i);
+            if let (Some(r), Some(m)) = (r, m) {
+                if r.0 == m.0 && m.1 == WILDCARD {
+                    continue;
+                }
+            }
             if r != m {
                 let show = |x: Option<&(&'static str, Vec<u8>)>| match x {
                     Some((l, v)) => format!("{}={}", l, refmodel::hex(&v[..v.len().min(80)])),
@@ -299,9 +309,11 @@ impl Obs {
                 return Some(format!("item {}: real {} / model {}", i, show(r), show(m)));
             }
         }
-        Some("observations differ".into())
+        None
     }
 }
+
+pub const WILDCARD: &[u8] = b"\xff*any*\xff";
 
 pub enum Out {
     /// a referenced handle / party does not exist (its defining step failed or was removed)
